@@ -196,6 +196,7 @@ type pb struct {
 		bytes []byte
 	}
 	budget int // remaining statements
+	pure   bool
 }
 
 func (b *pb) op(o byte, pops, pushes int) {
@@ -362,6 +363,9 @@ func (b *pb) genValue(d int) {
 	}
 	if d > 0 {
 		w[9], w[10], w[11] = 6, 30, 5
+	}
+	if b.pure { // nothing that can run out of gas on its own (no memory expansion)
+		w[4], w[8] = 0, 0
 	}
 	switch pickW(b.t, w...) {
 	case 0:
@@ -1105,6 +1109,12 @@ func genWorld(t *rapid.T) *world {
 	if w.Create {
 		env.self = -1
 		w.InitCode, w.MainSrc = genCode(t, env, true)
+		if chance(t, 6) {
+			w.Collide = 1
+		}
+	} else if chance(t, 5) {
+		w.Collide = 2
+		w.MainSrc = w.U[0].Src
 	} else {
 		w.MainSrc = w.U[0].Src
 	}
